@@ -1,5 +1,6 @@
 import FluentVerif.Proto.Chunk
 import FluentVerif.Msgp.Complete
+import FluentVerif.Msgp.Ext32
 import FluentVerif.Msgpack.Fuel
 import FluentVerif.Forward.Spec
 /-! helper lemmas for C11 -/
@@ -123,6 +124,11 @@ theorem isTimestampType_of_parse {b v r} (h : parse b = some (v, r)) :
 theorem skip_of_parse {b v r} (h : parse b = some (v, r)) : skip b = .ok () r := by
   simp [skip, h]
 
+/-- the stream `Skip` passes over a complete value that holds no ext32 token -/
+theorem skipP_of_parse {p b v r} (h : parse b = some (v, r)) (hx : p = .stream → hasExt32 b = false) :
+    skipP p b = .ok () r := by
+  rw [skipP_eq_skip hx]; exact skip_of_parse h
+
 /-- option keys GetChunk is specified for: non-empty strings -/
 def KeysOK : Objs → Prop
   | .nil => True
@@ -136,13 +142,14 @@ def Agrees (res : Res Bytes) (want : Option Bytes) : Prop :=
   | none => res = .err
 
 theorem getChunkKeys_agrees : ∀ (n : Nat) (b : Bytes) (kvs : Objs) (r : Bytes),
-    parseSeq (2*n) b = some (kvs, r) → KeysOK kvs → Agrees (getChunkKeys n b) (chunkOfKVs kvs)
-  | 0, b, kvs, r, h, _ => by
+    parseSeq (2*n) b = some (kvs, r) → KeysOK kvs → ext32Seq (2*n) b = false →
+    Agrees (getChunkKeys n b) (chunkOfKVs kvs)
+  | 0, b, kvs, r, h, _, _ => by
     simp [parseSeq] at h; obtain ⟨rfl, _⟩ := h
     simp [getChunkKeys, chunkOfKVs, objsToList, pairs, Agrees]
-  | n+1, b, kvs, r, h, hk => by
+  | n+1, b, kvs, r, h, hk, hx => by
     have two : 2 * (n+1) = (2*n + 1) + 1 := by omega
-    rw [two] at h
+    rw [two] at h hx
     cases kvs with
     | nil => have := (parseSeq_nil_inv h).1; omega
     | cons k rest =>
@@ -157,6 +164,8 @@ theorem getChunkKeys_agrees : ∀ (n : Nat) (b : Bytes) (kvs : Objs) (r : Bytes)
         subst hm2'
         simp only [KeysOK] at hk
         obtain ⟨⟨s, rfl, hne⟩, hk'⟩ := hk
+        obtain ⟨_, hx1⟩ := ext32Seq_cons hx pk
+        obtain ⟨hxv, hx2⟩ := ext32Seq_cons hx1 pv
         unfold getChunkKeys
         rw [readMapKey_stream_of_parse pk hne]
         simp only [Res.bind]
@@ -169,13 +178,13 @@ theorem getChunkKeys_agrees : ∀ (n : Nat) (b : Bytes) (kvs : Objs) (r : Bytes)
             cases v <;> rfl
           rw [this]
           cases v <;> simp [Agrees]
-        · rw [if_neg e, skip_of_parse pv]
+        · rw [if_neg e, skipP_of_parse pv (fun _ => hxv)]
           simp only [Res.bind]
           have : chunkOfKVs (.cons (.str s) (.cons v rest')) = chunkOfKVs rest' := by
             have e' : (s == sChunk) = false := by
               simp only [beq_eq_false_iff_ne, ne_eq]; exact e
             simp [chunkOfKVs, objsToList, pairs, e']
           rw [this]
-          exact getChunkKeys_agrees n b2 rest' r h2 hk'
+          exact getChunkKeys_agrees n b2 rest' r h2 hk' hx2
 
 end FV
